@@ -150,14 +150,14 @@ def run_real(res, scratch, ov, tier, seed, only=None):
         scens = [only]
     else:
         scens = []
-        kinds = ["peerclose", "peerreset", "hammer", "writereset", "flushreset", "stop", "dial-ok", "dial-refused", "dial-timeout",
-                 "dial-peerclose"]
+        kinds = ["peerclose", "peerreset", "hammer", "writereset", "flushreset", "sendfilereset", "stop", "dial-ok", "dial-refused",
+                 "dial-timeout", "dial-peerclose", "dial-pending-stop"]
         reps = 2 if tier == "quick" else 10
         for rep in range(reps):
             for mode in ("LT", "ET", "OS"):
                 for transport in ("tcp", "unix"):
                     for kind in kinds:
-                        if transport == "unix" and kind in ("dial-timeout", "peerreset", "writereset", "flushreset"):
+                        if transport == "unix" and kind in ("dial-timeout", "dial-pending-stop", "peerreset", "writereset", "flushreset", "sendfilereset"):
                             continue
                         scens.append({"id": "real-%s-%s-%s#%d" % (mode, transport, kind, len(scens)), "mode": mode, "transport": transport,
                                       "kind": kind, "seed": rnd.randrange(1 << 40), "leg": "real", "conns": 4})
